@@ -39,11 +39,12 @@ const (
 	blkForgedCommit // coinbase witness commitment altered together with... nothing (merkle mismatch) or witness nonce changed (commitment mismatch)
 	blkBadWitness   // a witness item changed: txids and merkle root unchanged, commitment no longer matches
 	blkSilent       // no answer
+	blkStream       // never the block asked for, but other blocks of the chain every 400 ms for 40 s
 	numBlkKinds
 )
 
 var blkNames = []string{"honest", "other-block", "mutated-tx", "extra-tx", "removed-tx", "dup-tx",
-	"strip-witness", "forged-commit", "bad-witness", "silent"}
+	"strip-witness", "forged-commit", "bad-witness", "silent", "stream-of-other-blocks"}
 
 // Behaviour is a peer's behaviour program, drawn per run from the tape.
 type Behaviour struct {
@@ -147,6 +148,8 @@ type SimPeer struct {
 	// latest handshake completed.
 	clientTipAtHandshake int32
 	handshakeAt          time.Time
+	// gotGetDataAt: when each entry of gotGetData arrived.
+	gotGetDataAt []time.Time
 	// servedOK: block requests answered with the true block.
 	servedOK int
 	// clientCuts: established connections to this node that the client
@@ -707,6 +710,7 @@ func (p *SimPeer) onGetData(m *wire.MsgGetData) {
 		switch iv.Type {
 		case wire.InvTypeBlock, wire.InvTypeWitnessBlock:
 			p.gotGetData = append(p.gotGetData, iv.Hash)
+			p.gotGetDataAt = append(p.gotGetDataAt, time.Now())
 			p.serveBlock(iv.Hash)
 		case wire.InvTypeTx, wire.InvTypeWitnessTx:
 			// The client never has our transactions; ignore.
@@ -743,6 +747,24 @@ func (p *SimPeer) serveBlock(h chainhash.Hash) {
 	case blkHonest:
 		p.servedOK++
 	case blkSilent:
+		return
+	case blkStream:
+		other := blk.Parent
+		if other == nil || other.Height == 0 {
+			other = p.view
+		}
+		if other.Hash == h {
+			return
+		}
+		c := p.conn
+		for k := 1; k <= 100; k++ {
+			om := cloneBlock(other.Msg)
+			p.w.after(time.Duration(k)*400*time.Millisecond, func() {
+				if p.conn == c && c != nil && !c.dead() {
+					p.send(om)
+				}
+			})
+		}
 		return
 	case blkOther:
 		other := blk.Parent
